@@ -1,5 +1,5 @@
 //@unit sv_commit
-//@props C05 C02 C03
+//@props C05 C02 C03 C06
 // Contracts on SimpleValidator's commitment validation (vls-core/src/policy/simple_validator.rs)
 // and the fee helpers in util/transaction_utils.rs.
 use vstd::prelude::*;
@@ -26,6 +26,8 @@ verus! {
 //@include frag/channel_spec.rs
 //@include frag/sv_types.rs
 //@include frag/sv_spec.rs
+
+pub spec const MSAT_BOUND: u64 = 0x4000_0000_0000_0000u64;
 
 //@fn vls-core/src/util/transaction_utils.rs :: - :: estimate_feerate_per_kw props=C05,C08
     requires weight > 0,
@@ -152,6 +154,36 @@ impl SimpleValidator {
 
 //@fn vls-core/src/policy/simple_validator.rs :: impl Validator for SimpleValidator :: validate_counterparty_revocation props=C03
 //@include frag/c/sv_validate_counterparty_revocation.rs
+//@end
+
+//@fn vls-core/src/policy/simple_validator.rs :: impl Validator for SimpleValidator :: validate_payment_balance props=C06
+    requires
+        // assumption: msat amounts stay below 2^62 (the total bitcoin supply is about 2^61 msat); beyond it the unchecked
+        // u64 additions in this function wrap (towards refusal) in release builds and panic in debug builds
+        incoming_msat <= MSAT_BOUND, outgoing_msat <= MSAT_BOUND, self.policy.max_routing_fee_msat <= MSAT_BOUND,
+        invoiced_amount_msat.is_some() ==> invoiced_amount_msat->Some_0 <= MSAT_BOUND,
+    ensures
+        // C06: what goes out for a payment hash is covered by what comes in plus the approved amount plus the fee allowance;
+        // without an approved invoice the allowance is zero (unbacked payments are refused)
+        r.is_ok() && vx_strict(T_policy_routing_balanced) ==> outgoing_msat <= incoming_msat
+            + (match invoiced_amount_msat { Some(a) => a + self.policy.max_routing_fee_msat, None => 0 }),     //[C06.balance.covered]
+        // and the routing fee actually paid stays within the configured percentage of the invoice
+        r.is_ok() && vx_strict(T_policy_htlc_fee_range) && invoiced_amount_msat.is_some()
+            && invoiced_amount_msat->Some_0 + incoming_msat <= outgoing_msat ==>
+            (outgoing_msat - invoiced_amount_msat->Some_0 - incoming_msat) * 100
+                / (if invoiced_amount_msat->Some_0 >= 1 { invoiced_amount_msat->Some_0 as int } else { 1 })
+                <= self.policy.max_feerate_percentage,                                                         //[C06.balance.fee-percentage]
+//@sub /\.ok_or\(policy_error\(/ => .ok_or(policy_error::<u64, &str>(
+//@sub /self\.policy\.max_feerate_percentage\.into\(\)/ => (self.policy.max_feerate_percentage as u64)
+//@end
+
+//@fn vls-core/src/policy/simple_validator.rs :: impl Validator for SimpleValidator :: validate_payment_cltv props=C06
+    // with a filter that downgrades policy-routing-cltv-delta and incoming <= outgoing the subtraction below underflows
+    // (panic in debug builds, wrap in release builds): outside the property's non-permissive scope
+    requires vx_strict(T_policy_routing_cltv_delta) || incoming_cltv > outgoing_cltv,
+    ensures
+        r.is_ok() && vx_strict(T_policy_routing_cltv_delta) ==> incoming_cltv > outgoing_cltv
+            && incoming_cltv - outgoing_cltv >= self.policy.cltv_delta,                                        //[C06.cltv.delta-at-least-policy]
 //@end
 
 //@fn vls-core/src/policy/simple_validator.rs :: impl Validator for SimpleValidator :: is_ready props=C05
